@@ -402,7 +402,9 @@ func init() {
 					return nil // not expressible under this rule: the transcoder may fail it
 				}
 			}
-			p := &Plan{Config: cfg, RPCs: []RPCPlan{{Client: cp, Backend: bp}}, Sched: SchedPlan{Policy: "seq"}, Pool: PoolPlan{Policy: "lifo"}}
+			p := &Plan{Config: cfg, RPCs: []RPCPlan{{Client: cp, Backend: bp}}, Sched: SchedPlan{Policy: "seq"}, Pool: PoolPlan{Policy: "lifo", Poison: c.Prob(0.7)}}
+			// (poison: a buffer that goes back to the pool is overwritten at once, so bytes that a decoded message still
+			// borrows from it - HttpBody data is not copied - show as wrong content, not as a lucky survival)
 			p.Note = topo
 			return p
 		},
